@@ -15,8 +15,8 @@ Bounded(p, r0, r1) == (r0.ok => r0.n <= Len(p)) /\ (r1.ok => r1.n <= Len(p))
 \* validation only rejects: what it accepts is what the plain decoder yields
 ValidationRestricts(r0, r1) == r1.ok => r0 = r1
 \* the result depends on the consumed prefix only
-PrefixOnly(s, p, r0, r1) == /\ (r0.ok /\ r0.n < Len(p)) => Dec(s, SubSeq(p, 1, r0.n), FALSE) = r0
-                            /\ (r1.ok /\ r1.n < Len(p)) => Dec(s, SubSeq(p, 1, r1.n), TRUE) = r1
+PrefixOnly(s, p, r0, r1) == (r0.ok /\ r0.n < Len(p)) => /\ Dec(s, SubSeq(p, 1, r0.n), FALSE) = r0
+                                                         /\ Dec(s, SubSeq(p, 1, r0.n), TRUE) = r1
 \* C03 reverse: the validating decoder accepts canonical bytes only
 Canonical(s, p, r1, e1) == InScope(s, r1) => e1 = Ok(SubSeq(p, 1, r1.n))
 \* C01 on every value a decoder can produce: it re-encodes, and decodes back to its canonical form
@@ -24,18 +24,9 @@ RoundTripDecoded(s, r0, e0) ==
   InScope(s, r0) => /\ e0.ok
                     /\ Dec(s, e0.b, FALSE) = OkD(Canon(s, r0.v, TRUE), Len(e0.b))
 
-RECURSIVE ZW(_)
-RECURSIVE SumZW(_, _)
-SumZW(fs, i) == IF i > Len(fs) THEN 0 ELSE ZW(fs[i]) + SumZW(fs, i + 1)
-ZW(s) == CASE s.k \in {"slice", "arr"} -> (IF MinWidth(s.e) = 0 THEN 1 ELSE 0) + ZW(s.e)
-           [] s.k = "map" -> ZW(s.key) + ZW(s.val)
-           [] s.k = "struct" -> SumZW(s.f, 1)
-           [] s.k \in {"opt", "eptr"} -> ZW(s.t)
-           [] s.k = "iface" -> SumZW([j \in 1..Len(s.alts) |-> s.alts[j].t], 1)
-           [] OTHER -> 0
-\* C02: what a decoder builds is bounded by what it consumed, not by a length field
-\* (every dynamic element costs at least one input byte unless the element type is empty: 255 per such slice)
-SizeBounded(s, r0) == r0.ok => Size(s, r0.v) <= 2 * r0.n + Static(s) + 260 * ZW(s)
+\* C02: what a decoder builds is bounded by what it consumed, never by a length field it read:
+\* the fixed parts of the schema plus a schema constant per consumed byte
+SizeBounded(s, r0) == r0.ok => Size(s, r0.v) <= Static(s) + PerByte(s) * r0.n
 
 \* everything the properties say about byte string p handed to the decoders of schema s;
 \* emit(r0, r1, e0, e1) lets the caller export the model's expectation for p
